@@ -204,22 +204,21 @@ def mutation_of(before, after, tolerance=None):
         return None
     text = f"caller's options {describe_options(before)} became {describe_options(after)}"
 
-    def lsp(d):
-        return d.get("least_squares_params") if isinstance(d, dict) else None
+    def holder(d):  # the dict that carries `least_squares_params` (refine_droplet keywords or refine_args)
+        if isinstance(d.get("least_squares_params"), dict):
+            return d
+        if isinstance(d.get("refine_args"), dict) and isinstance(d["refine_args"].get("least_squares_params"), dict):
+            return d["refine_args"]
+        return None
 
-    def strip(d):
-        d = fresh(d)
-        holder = d if lsp(d) is not None else d.get("refine_args") if isinstance(d.get("refine_args"), dict) else None
-        if holder is not None and isinstance(lsp(holder), dict) and holder.get("tolerance") is not None:
-            for k in ("ftol", "xtol", "gtol"):
-                if k in holder["least_squares_params"] and holder["least_squares_params"][k] == holder["tolerance"]:
-                    del holder["least_squares_params"][k]
-        return d
-
-    b_holder = before if lsp(before) is not None else before.get("refine_args", {}) or {}
-    added_only = all(k not in (lsp(b_holder) or {}) for k in ("ftol", "xtol", "gtol"))
-    if added_only and deep_equal(before, strip(after)):
-        return ("tolerance-defaults", text)
+    stripped = fresh(after)
+    hb, ha = holder(before), holder(stripped)
+    if hb is not None and ha is not None and ha.get("tolerance") is not None:
+        for k in ("ftol", "xtol", "gtol"):
+            if k not in hb["least_squares_params"] and ha["least_squares_params"].get(k) == ha["tolerance"]:
+                del ha["least_squares_params"][k]
+        if deep_equal(before, stripped):
+            return ("tolerance-defaults", text)
     return ("other", text)
 
 
